@@ -76,6 +76,54 @@ def lemmas():
                         ast.unparse(n)[:80], q), False)
     yield ('frame:flows-list-store-sites-found', found >= 4,
            '%d sites' % found, False)
+    # what a package hides or removes is declared by the package AND by the
+    # packages it requires: evaluation over the shipped package modules --
+    # whatever was loaded before (a requirement with other options), after
+    # \\usepackage{P} every macro and environment of every requirement of P
+    # is declared
+    import os
+    from contracts import tokmodel as tm
+    tm.real_parms()
+    import importlib
+    parameters = importlib.import_module('yalafi.parameters')
+    parser = importlib.import_module('yalafi.parser')
+    utils = importlib.import_module('yalafi.utils')
+    pkdir = os.path.join(front.REPO, 'yalafi', 'packages')
+    mods = sorted(f[:-3] for f in os.listdir(pkdir)
+                  if f.endswith('.py') and f != '__init__.py')
+
+    def declared(src):
+        pr = parser.Parser(parameters.Parameters())
+        base = (set(pr.the_macros), set(pr.the_environments))
+        pr.parse(src)
+        return (set(pr.the_macros) - base[0],
+                set(pr.the_environments) - base[1])
+    bad, npk = [], 0
+    pm = parameters.Parameters().package_modules
+    for m in mods:
+        try:
+            requ = utils.get_module_handler(m, pm)[0]
+        except BaseException:      # noqa
+            continue
+        if not requ:
+            continue
+        npk += 1
+        want = [set(), set()]
+        for r in requ + [m]:
+            d = declared('\\usepackage{%s}\n' % r.replace('_', '-'))
+            want[0] |= d[0]
+            want[1] |= d[1]
+        for r0 in requ:
+            for opt in ('', '[draft]'):
+                src = '\\usepackage%s{%s}\n\\usepackage{%s}\n' % (
+                    opt, r0.replace('_', '-'), m.replace('_', '-'))
+                got = declared(src)
+                miss = sorted((want[0] - got[0]) | (want[1] - got[1]))
+                if miss:
+                    bad.append((src, miss[:4]))
+    yield ('packages:requirements-are-loaded-whatever-was-loaded-before',
+           not bad and npk >= 2, 'document, missing declarations: %r' % (
+               bad[:2],))
 
 
 TRUSTED = cm.TRUSTED_CORE
